@@ -1479,6 +1479,8 @@ fn sweep_many_results(ctx: &Ctx) -> Tally {
 /// the buffer search runs at lengths 0, 1, 65 535, 65 536, 65 537, R - 1, R, R + 2 against the allocating one.
 fn sweep_huge_results(ctx: &Ctx) -> Tally {
     let mut tl = Tally::default();
+    // the allocating search exists with feature alloc only
+    #[cfg(feature = "tz-alloc")]
     for (k, with_rule) in [(65_535usize, false), (65_536, false), (65_537, false), (65_537, true), (65_540, false), (70_001, true)] {
         let r = guard(|| {
             let mut tl = Tally::default();
